@@ -70,6 +70,47 @@ class Cx:
                         IS_CLOSED_NAMES.add('%s::%s' % (p_, m_['n']))
         except Exception:
             pass
+        # ... likewise the object-safe twin of Observer (BoxObserverInner: box_next / box_error / box_complete / box_is_finished) and the
+        # private helpers of scheduler.rs that the timing rules name (new_timer: Duration -> boxed future; remote_handle: future ->
+        # (wrapped future, TaskHandle)). A renamed one is presented to the rules under the tabled name.
+        from . import expr as _expr
+        _expr.NAME_ALIASES.clear()
+        try:
+            if 'observer::BoxObserverInner' not in facts.traits:
+                for p_, t_ in facts.traits.items():
+                    if not p_.startswith('observer::') or p_ == 'observer::Observer':
+                        continue
+                    roles_ = {}
+                    for m_ in t_.get('methods', []):
+                        ins = [facts.tystr(i_) for i_ in m_.get('inputs', [])]
+                        out = facts.tystr(m_['output']) if m_.get('output') is not None else None
+                        if len(ins) == 2 and ins[0] == '&mut Self':
+                            roles_['box_next'] = m_['n']
+                        elif len(ins) == 2 and ins[0].startswith('std::boxed::Box<'):
+                            roles_['box_error'] = m_['n']
+                        elif len(ins) == 1 and ins[0].startswith('std::boxed::Box<'):
+                            roles_['box_complete'] = m_['n']
+                        elif len(ins) == 1 and ins[0] == '&Self' and out == 'bool':
+                            roles_['box_is_finished'] = m_['n']
+                    if len(roles_) == 4:
+                        for canon_, actual_ in roles_.items():
+                            _expr.NAME_ALIASES['%s::%s' % (p_, actual_)] = 'observer::BoxObserverInner::' + canon_
+                        facts.traits['observer::BoxObserverInner'] = dict(t_, methods=[dict(m_, n={v: k for k, v in roles_.items()}.get(m_['n'], m_['n'])) for m_ in t_.get('methods', [])])
+            by_path = {f_['path']: f_ for f_ in facts.fns.values() if f_['kind'] == 'fn'}
+            if 'scheduler::new_timer' not in by_path:
+                c_ = [f_ for f_ in by_path.values() if f_.get('file', '').endswith('scheduler.rs') and len(f_.get('inputs', [])) == 1
+                      and facts.tystr(f_['inputs'][0]) == 'std::time::Duration' and 'Future' in facts.tystr(f_.get('output', 0) or 0)]
+                if len(c_) == 1:
+                    _expr.NAME_ALIASES[c_[0]['path']] = 'scheduler::new_timer'
+                    c_[0]['name'] = 'new_timer'
+            if 'scheduler::remote_handle' not in by_path:
+                c_ = [f_ for f_ in by_path.values() if f_.get('file', '').endswith('scheduler.rs') and len(f_.get('inputs', [])) == 1
+                      and 'TaskHandle' in facts.tystr(f_.get('output', 0) or 0) and facts.ty(f_.get('output', 0) or 0).get('k') == 'tuple']
+                if len(c_) == 1:
+                    _expr.NAME_ALIASES[c_[0]['path']] = 'scheduler::remote_handle'
+                    c_[0]['name'] = 'remote_handle'
+        except Exception:
+            pass
 
     def graph(self, key, **kw):
         k = (key, tuple(sorted(kw.items())))
